@@ -267,6 +267,15 @@ theorem af_pos (v : Nat) (hv : v ≤ 204) : u8 (Int.tdiv (v : Int) 8) = ((v / 8 
 theorem af_bit (v : Nat) : u8 (Int.tmod (v : Int) 8) = ((v % 8 : Nat) : Int) := by
   rw [tmod_nn _ _ (by omega)]; unfold u8; omega
 
+/-- the same two quantities written with shift and mask (`value >> 3`, `value & 7`) -/
+theorem af_pos_shr (v : Nat) (hv : v ≤ 204) : u8 (shr (v : Int) 3) = ((v / 8 : Nat) : Int) := by
+  rw [shr_lit, u8_nat]
+  have h : v / 2 ^ 3 = v / 8 := rfl
+  rw [h]; omega
+theorem af_bit_band (v : Nat) : u8 (band (v : Int) 7) = ((v % 8 : Nat) : Int) := by
+  have h : v &&& 7 = v % 8 := Nat.and_two_pow_sub_one_eq_mod v 3
+  rw [band_lit, u8_nat, h]; omega
+
 theorem shr128_int (k : Nat) (hk : k < 8) : shr 128 (k : Int) = ((2 ^ (7 - k) : Nat) : Int) := by
   show shr ((128 : Nat) : Int) (k : Int) = _
   rw [shr_natCast, shr128 k hk]
@@ -293,7 +302,7 @@ theorem af_get_eq (af : C_rdsparser_af) (v : Nat) :
   cases hval : afValid v
   · simp
   · have hv : 1 ≤ v ∧ v ≤ 204 := by simpa [afValid] using hval
-    simp only [if_true, Bool.true_and, af_pos v hv.2, af_bit, getI_natCast,
+    simp only [if_true, Bool.true_and, af_pos v hv.2, af_bit, af_pos_shr v hv.2, af_bit_band, getI_natCast,
       shr128_int (v % 8) (by omega), band_natR, natCast_bne_zero, and_two_pow_ne_zero, bitsOf_getD _ v (by omega), bitOf]
 
 theorem bor_natR (x : Int) (n : Nat) : bor x (n : Int) = ((x.toNat ||| n : Nat) : Int) := by
@@ -351,7 +360,17 @@ theorem af_set_eq (af : C_rdsparser_af) (v : Nat) (hlen : af.buffer.length = 26)
         setByte (af.buffer.getD (v / 8) 0) (v % 8) := by
       rw [shr128_int (v % 8) (by omega), bor_natR, getI_natCast]
       unfold u8 setByte; omega
-    simp only [if_true, af_pos v hv.2, af_bit, hbyte, listSet_natCast,
+    have hbyte' : u8 (bor (getI af.buffer ((v / 8 : Nat) : Int)) (((2 ^ (7 - v % 8) : Nat) : Int))) =
+        setByte (af.buffer.getD (v / 8) 0) (v % 8) := by
+      rw [bor_natR, getI_natCast]
+      unfold u8 setByte; omega
+    have hu : u8 (((2 ^ (7 - v % 8) : Nat) : Int)) = ((2 ^ (7 - v % 8) : Nat) : Int) := by
+      rw [u8_nat]
+      have h7 : 2 ^ (7 - v % 8) ≤ 2 ^ 7 := Nat.pow_le_pow_right (by omega) (by omega)
+      have h128 : (2 : Nat) ^ 7 = 128 := rfl
+      generalize 2 ^ (7 - v % 8) = w at h7 ⊢
+      omega
+    simp only [if_true, af_pos v hv.2, af_bit, af_pos_shr v hv.2, af_bit_band, shr128_int (v % 8) (by omega), hu, hbyte', hbyte, listSet_natCast,
       bitsOf_set af.buffer v (by omega), List.length_set, hlen, b2i_true, and_self]
 
 /-! ## `rdsparser_ct_init` -/
